@@ -1,6 +1,6 @@
 ---------------------------- MODULE Names ----------------------------
 (***************************************************************************)
-(* C19: names and symbols of units and prefixes.                           *)
+(* C19: names and symbols of units, prefixes and dimensions.               *)
 (*                                                                         *)
 (* Objects are opaque keys (strings): a unit key stands for an interned    *)
 (* unit (base or compound), a prefix key for an interned prefix.  The      *)
@@ -63,7 +63,9 @@ Declare(op, c, k, n, s, fresh) ==
 
 \* a lookup by symbol (Unit.resolve_symbol / Prefix.resolve_symbol): exact symbol first, then - for units - the name;
 \* its answer is a function of the registries NOW, whatever was looked up before
-Resolve(c, x) == IF x \in DOMAIN bySym[c] THEN bySym[c][x]
+\* (dimensions have a name registry only: Dimension.named)
+Resolve(c, x) == IF c = "dimension" THEN (IF x \in DOMAIN byName[c] THEN byName[c][x] ELSE "unbound")
+                 ELSE IF x \in DOMAIN bySym[c] THEN bySym[c][x]
                  ELSE IF c = "unit" /\ x \in DOMAIN byName[c] THEN byName[c][x] ELSE "unbound"
 Lookup(c, x) ==
   /\ ev' = Ev("lookup", c, Resolve(c, x), "", x, "ok")
